@@ -38,16 +38,33 @@ var c11Check = register("C11", "c11.equiv", func(c *equivSeedCase) error {
 	implCheck(m, bip39.English)
 	implCheck(m2, bip39.Japanese)
 	a, pa := implSeed(m, p)
+	// the caller wipes the first seed (key material) before deriving from the other spelling:
+	// the returned slice is the caller's
+	held := a
+	a = append([]byte(nil), a...)
+	for i := range held[:cap(held)] {
+		held[:cap(held)][i] = 0
+	}
 	b, pb := implSeed(m2, p2)
 	sig := "C11 seed-equiv " + c.Method
 	if pa != nil || pb != nil {
 		return failf(sig+" panic", "MnemonicToSeed panicked: %v %v", pa, pb)
+	}
+	if len(a) > 0 && len(b) > 0 && &held[0] == &b[0] {
+		return failf(sig+" aliased", "MnemonicToSeed returned the same memory for (%+q, %+q) and then for (%+q, %+q): a caller wiping one seed destroys the other", clip(m), clip(p), clip(m2), clip(p2))
 	}
 	if !bytes.Equal(a, b) {
 		return failf(sig, "MnemonicToSeed gives different seeds for NFKD-equal spellings (%s):\n  (%+q, %+q) -> %x\n  (%+q, %+q) -> %x", c.Method, clip(m), clip(p), a, clip(m2), clip(p2), b)
 	}
 	if want := ref.Seed(m, p); !bytes.Equal(a, want) {
 		return failf(sig+" anchor", "MnemonicToSeed(%+q, %+q) = %x, BIP39 says %x", clip(m), clip(p), a, want)
+	}
+	// and once more in the first spelling after the caller overwrote the second result
+	for i := range b {
+		b[i] ^= 0xff
+	}
+	if a2, pa2 := implSeed(m, p); pa2 != nil || !bytes.Equal(a2, a) {
+		return failf(sig+" repeat", "MnemonicToSeed(%+q, %+q) returned %x at first and %x (panic=%v) after the caller had overwritten the seeds returned earlier for this pair and its respelling", clip(m), clip(p), a, a2, pa2)
 	}
 	return nil
 })
@@ -63,7 +80,7 @@ func clip(s string) string {
 	return s
 }
 
-const c11Rule = "C11: (a) word sweep \u2014 all 10 x 2048 list words, 24 per valid sentence, each sentence respelled in NFC, NFD, NFKC, NFKD and full-width, with U+0020 and with U+3000 between words, against the canonical spelling; (b) rapid pairs (mnemonic, passphrase) from the C04 generator respelled by whole-string forms, per-token forms, NFKD-space substitution and inverse-NFKD substitution (runes that decompose to a substring: compatibility ideographs, ligatures, Hangul syllables, precomposed letters, ...). Oracle: seeds equal, and equal to the reference PBKDF2 value. Non-trivial: the two spellings differ bytewise; distinct by (m, p, m2, p2)"
+const c11Rule = "C11: (a) word sweep \u2014 all 10 x 2048 list words, 24 per valid sentence, each sentence respelled in NFC, NFD, NFKC, NFKD and full-width, with U+0020 and with U+3000 between words, against the canonical spelling; (b) rapid pairs (mnemonic, passphrase) from the C04 generator respelled by whole-string forms, per-token forms, NFKD-space substitution and inverse-NFKD substitution (runes that decompose to a substring: compatibility ideographs, ligatures, Hangul syllables, precomposed letters, ...). Oracle: seeds equal, and equal to the reference PBKDF2 value; the caller wipes each returned seed before the next call (returned slices are the caller's), and the first spelling is derived once more at the end. Non-trivial: the two spellings differ bytewise; distinct by (m, p, m2, p2)"
 
 func c11Record(c *equivSeedCase) {
 	cov.Eval(1)
@@ -144,7 +161,7 @@ func TestC11_Respell(t *testing.T) {
 		if k++; k%53 == 1 && len(m) < 300 {
 			cov.Sample("c11.equiv", c)
 		}
-		judge(rt, "c11.equiv", c11Check, c)
+		judgeH(rt, "c11.equiv", c11Check, c, gen.Lang().Draw(rt, "history-around"))
 	})
 	_ = fmt.Sprint
 }
